@@ -302,8 +302,8 @@ def sample_lines(path, want=2):
 
 
 TABLE_PROPS = {
- "C01": (["C01_", "C11_closedHandSettles"], []),   # a closed hand that is never settled has not moved its chips at all  # incl. C01_hand* clauses judged on the real backend's transition system
- "C02": (["C02_", "C01_settleCredit"], []),   # "entry i's result is credited to that player and nobody else" is the settlement-credit clause
+ "C01": (["C01_", "C11_closedHandSettles", "C03_noPanic"], []),   # a closed hand that is never settled has not moved its chips at all  # incl. C01_hand* clauses judged on the real backend's transition system
+ "C02": (["C02_", "C01_settleCredit", "C03_noPanic"], []),   # "entry i's result is credited to that player and nobody else" is the settlement-credit clause
  "C03": (["C03_"], ["sm"]),
  "C05": (["C05_"], ["sm"]),
  "C06": (["C06_"], []),
